@@ -157,7 +157,7 @@ CHECKS['C19'] = dict(
    design_ref='5.19',
    category='model_checking',
    note='Data-race freedom in the C++ memory-model sense is observed by ThreadSanitizer on the recorded executions, not decided by the '
-        'model; the model decides the locking discipline. One known finding (ICU vector registers) is listed in known_findings.json.',
+        'model; the model decides the locking discipline. Two repaired races (disable-interrupt bits, ICU vector registers) are listed as fixed in known_findings.json and suppress nothing.',
    technique='TLA+ spec + TLC model checking of all interleavings (safety + liveness) + TLC interleaving search over recorded two-thread runs')
 CHECKS['C08'] = dict(
    text='Round-trip theorems (push;pop for every pushable register/word/product/accumulator, call/callr/calla;ret in both pc word '
